@@ -188,7 +188,7 @@ def gen_cases(tier, seed):
     variants = ["windmeier", "nonzero", "random", "tank"]
     nm = 8 if tier == "quick" else 80
     for i in range(nm):
-        cases.append({"kind": "model", "variant": variants[i % 4], "sub": int(rng.integers(1 << 31)), "cost": 12, "big": [1200000, 2500000, 1000001][i % 3] if i % 4 == 1 else None})
+        cases.append({"kind": "model", "variant": variants[i % 4], "sub": int(rng.integers(1 << 31)), "cost": 12, "big": [1200000, 2500000, 1000001][i % 3] if i % 4 == 1 else None, "history": i % 4 == 2})
     qs = [1e-6, 1e-3, 0.05, 0.5, 0.95, 0.999, 1 - 1e-4, 1 - 1e-6, 1 - 1e-8]
     nc = 2 if tier == "quick" else 12
     for r in range(nc):
@@ -293,6 +293,27 @@ def _model(case, ctx):
         b = BASE_SAMPLES[-1]
         okd = smp.shape == b.shape and bool(np.allclose(smp[:, 0], b[:, 0], rtol=1e-14, atol=0)) and bool(np.allclose(smp[:, 1], tz_of(b[:, 0], b[:, 1]), rtol=1e-12, atol=0))
     ctx.check("c16.sample-is-inverse-of-base", okd, "TransformedModel.draw_sample is not the inverse-transformed sample of the base model", observed_base_draws=len(BASE_SAMPLES), **info)
+    # call history: the lazily cached Monte-Carlo sample is used (empirical_cdf), the base model's dependence parameters
+    # change in place (what a re-fit does), then samples are drawn again: they belong to the CURRENT parameters
+    if case.get("history"):
+        with np.errstate(all="ignore"):
+            tm.empirical_cdf(pts[:3])
+        dep = base.distributions[1].conditional_parameters["alpha"]
+        keys = list(dep.parameters.keys())
+        dep.parameters[keys[1]] = float(dep.parameters[keys[1]]) * 1.6
+        spec["dims"][1]["params"]["alpha"]["coef"][1] = float(spec["dims"][1]["params"]["alpha"]["coef"][1]) * 1.6
+        ref_h = S.RefModel(spec)
+        for how, kw_ in (("unseeded", {}), ("seeded", {"random_state": 12345})):
+            BASE_SAMPLES.clear()
+            smp_h = np.asarray(tm.draw_sample(20000, **kw_), float)
+            okh = bool(BASE_SAMPLES) and smp_h.shape == BASE_SAMPLES[-1].shape and bool(np.allclose(smp_h[:, 0], BASE_SAMPLES[-1][:, 0], rtol=1e-14, atol=0))
+            ctx.check("c16.sample-is-inverse-of-base", okh, f"after the cached sample was used and the base parameters changed, a {how} draw_sample is not the inverse-transformed sample of the base model", observed_base_draws=len(BASE_SAMPLES), **info)
+            Xb = np.c_[smp_h[:, 0], s_of(smp_h[:, 0], smp_h[:, 1])]
+            U1 = ref_h.cond_cdf(1, Xb)
+            D_ = stats.ks_distance(U1[np.isfinite(U1)], lambda t: np.clip(t, 0, 1))
+            ctx.check("c16.sample-follows-current-parameters", D_ <= stats.dkw_eps(len(U1)) + 1e-6, f"after a parameter change a {how} sample of the transformed model does not follow the current conditional law (stale sample)", ks=D_, eps=stats.dkw_eps(len(U1)), **info)
+        ctx.cls("history", "cache-used-then-parameters-changed")
+        return
     # size as an input class: a seeded sample of more than a million rows (what a small-alpha contour draws)
     if case.get("big"):
         nb = int(case["big"])
